@@ -91,8 +91,7 @@ Definition get_all_top (p : path) (v : jv) : list jv :=
   | [FDesc] => if is_container v then get_all p v else [v]
   | _ => get_all p v
   end.
-(* Expr.First *)
-Definition get (p : path) (v : jv) : option jv := hd_error (get_all_top p v).
+Definition ends_desc (p : path) : bool := match List.rev p with FDesc :: _ => true | _ => false end.
 (* Expr.Has: its own traversal, stops at the first match *)
 Fixpoint mhas (p : path) (v : jv) : bool :=
   match p with
@@ -118,6 +117,12 @@ Fixpoint mhas (p : path) (v : jv) : bool :=
     | _ => is_container v && existsb (mhas r) (nodes v)
     end
   end.
+
+(* Expr.First: its own traversal too.  It is the first element of Get except for a path that ends in a descent,
+   where (like Has) it only looks for a child of the node the descent starts from: nothing for an empty container
+   or a scalar, never the node itself *)
+Definition get (p : path) (v : jv) : option jv :=
+  if ends_desc p && negb (mhas p v) then None else hd_error (get_all_top p v).
 
 (* ---- bag-set ------------------------------------------------------------------------------------ *)
 (* the tree afterwards; SErr = the call panics, and the tree is what the failed call left behind *)
